@@ -250,6 +250,10 @@ def apply_case(case):
                 obs["out"] = out
             except Exception as e:  # classified by the trace spec
                 obs["err"], obs["errmsg"] = type(e).__name__, str(e)[:300]
+                if type(e) is RuntimeError and str(e).startswith("Maximum recursion depth reached"):
+                    # PennyLane re-raises the interpreter's RecursionError (itself a RuntimeError) under this message when the
+                    # gate set cannot be reached: the same recursion-limit decomposition failure as in the legacy path
+                    obs["err"] = "RecursionError"
         for w in wl:
             msg = str(w.message)
             if w.category.__name__ == "DecompositionWarning":
